@@ -190,6 +190,52 @@ pub fn run_c13(ctx: &mut Ctx) {
             }
         }
     }
+    // ---- the constructor has no memory: every ordered pair of interesting sizes, back to back
+    {
+        let mut interesting: Vec<usize> = (0..=20).chain(1020..=1030).chain(2040..=2050).chain(4090..=4100).chain(8185..=8200).collect();
+        for k in [4usize, 5, 6, 7, 8, 9, 10, 11, 12, 13, 16, 31, 32, 63] {
+            interesting.push(1usize << k);
+            interesting.push((1usize << k) + 1);
+            interesting.push((1usize << k) + 8);
+        }
+        interesting.extend_from_slice(&[usize::MAX, usize::MAX - 7, 65536 + 16, 8192 + 16, 8192 + 1024]);
+        interesting.sort();
+        interesting.dedup();
+        if level == 0 {
+            interesting = interesting.into_iter().step_by(9).chain([1usize, 8193, 16, 8208]).collect();
+        }
+        let oracle = |num: usize, size: usize| -> Option<u8> {
+            if size == 0 || size >= 4096 || num > 65535 {
+                None
+            } else {
+                Some(((usize::BITS - 1 - size.leading_zeros()) as usize).max(4) as u8 - 4)
+            }
+        };
+        let mut pidx = 0u64;
+        for &a in interesting.iter() {
+            for &b in interesting.iter() {
+                pidx += 1;
+                if pidx % nshards != shard {
+                    continue;
+                }
+                rep.eval();
+                let res = guard(|| (BlockValue::new(1, false, a), BlockValue::new(2, true, b)));
+                match res {
+                    Err(p) => rep.violation(&p.sig(), p.text(), format!("BlockValue::new(1,false,{}) then BlockValue::new(2,true,{})", a, b)),
+                    Ok((ra, rb)) => {
+                        let ga = ra.ok().map(|v| v.size_exponent);
+                        let gb = rb.ok().map(|v| v.size_exponent);
+                        if ga != oracle(1, a) || gb != oracle(2, b) {
+                            rep.violation("block-new-depends-on-previous-call", format!("new(.., {}) -> szx {:?} (want {:?}); then new(.., {}) -> szx {:?} (want {:?})", a, ga, oracle(1, a), b, gb, oracle(2, b)), format!("BlockValue::new(1,false,{}) then BlockValue::new(2,true,{})", a, b));
+                        } else {
+                            rep.count("constructor_pairs_ok");
+                        }
+                    }
+                }
+            }
+        }
+        rep.floor("constructor_pairs_ok", 10);
+    }
     rep.sample(|| format!("BlockValue{{num:4096,more:true,szx:2}} -> {}", hex(&Vec::<u8>::from(BlockValue { num: 4096, more: true, size_exponent: 2 }))));
     rep.sample(|| format!("BlockValue::try_from([0x01,0x00,0x0a]) -> {:?}", BlockValue::try_from(vec![1u8, 0, 0x0a]).map_err(|e| e.message)));
     rep.sample(|| format!("BlockValue::new(3, true, 1158) -> {:?}", BlockValue::new(3, true, 1158)));
